@@ -275,6 +275,9 @@ MACROS = [
     [P('#'), I('include'), ('hdr', '<stddef.h>')],
     [P('#'), I('include'), ('str', '"limits.h"')],
     [P('#'), I('undef'), I('NOT_DEFINED_ANYWHERE')],
+    # directives whose body is kept as raw text, continued over lines
+    [P('#'), I('pragma'), I('GCC'), I('diagnostic'), ('cont', ''), I('ignored'), ('cont', ''), ('str', '"-Wunused-variable"')],
+    [P('#'), I('pragma'), I('GCC'), I('poison'), ('cont', ''), I('NEVER_USED_ANYWHERE_1'), ('cont', ''), I('NEVER_USED_ANYWHERE_2')],
 ]
 
 
